@@ -4,7 +4,9 @@
    State rebuilt from the events:
      reg[p]      a live IncomingStreams exists for protocol p;  q[p]: streams handed to it and not yet taken, <<ser, peer>>
      conns       established connections [c, peer];  pd[peer]: dial attempts in flight (started by a Dial of the behaviour)
-     opens       open_stream calls in order: [peer, p, st: "wait" | "done" | "cancelled", cause (an error has a cause)]
+     opens       open_stream calls in order: [peer, p, st: "wait" | "done" | "cancelled", cause (an error has a cause),
+                 pq (issued while the peer had no connection and not yet taken over by a connection: it waits for the dial),
+                 must (io error kind it has to fail with: "NotConnected" once the dial it waited for has failed)]
      osr[c]      substream requests of connection c not yet answered (protocol ids, FIFO);  nosr / nopen: counters per <<peer, p>>
      okst        negotiated outbound streams not yet returned by an open_stream: [ser, peer, p]
      fails       failed outbound negotiations not yet returned: sequence of [peer, p, k]
@@ -29,7 +31,13 @@ Waiting(i) == opens[i].st = "wait"
 SetOf(s) == {s[i] : i \in 1..Len(s)}
 Drop(s, i) == [j \in 1..(Len(s) - 1) |-> IF j < i THEN s[j] ELSE s[j + 1]]
 (* every waiting open_stream towards peer x now has a reason to fail *)
-Blame(x) == [i \in 1..Len(opens) |-> IF opens[i].peer = x /\ Waiting(i) THEN [opens[i] EXCEPT !.cause = TRUE] ELSE opens[i]]
+Blame(x) == [i \in 1..Len(opens) |-> IF opens[i].peer = x /\ Waiting(i) THEN [opens[i] EXCEPT !.cause = TRUE, !.pq = FALSE] ELSE opens[i]]
+(* a connection to x takes over everything that was waiting for a dial *)
+TakeOver(x) == [i \in 1..Len(opens) |-> IF opens[i].peer = x THEN [opens[i] EXCEPT !.pq = FALSE] ELSE opens[i]]
+(* the dial to x failed: "dial errors are propagated" to every open_stream that waited for it *)
+DialBlame(x) == [i \in 1..Len(opens) |-> IF opens[i].peer = x /\ Waiting(i)
+                                          THEN [opens[i] EXCEPT !.cause = TRUE, !.pq = FALSE, !.must = IF opens[i].pq THEN "NotConnected" ELSE @]
+                                          ELSE opens[i]]
 
 Reset == /\ R.e = "reset" /\ reg' = Z /\ q' = [p \in Protos |-> <<>>] /\ conns' = {} /\ pd' = [x \in Peers |-> 0] /\ opens' = <<>>
          /\ osr' = [c \in Conns |-> <<>>] /\ nosr' = [x \in Peers |-> [p \in Protos |-> 0]] /\ okst' = {} /\ fails' = <<>> /\ inbp' = <<>>
@@ -63,7 +71,7 @@ Recv == /\ R.e = "recv" /\ reg[R.p]
 
 (* ---------------- outbound: T4 DialsWhenNeeded, T5 OneRequestPerOpen, T6 ResolvesWithItsOutcome ---------------- *)
 Open == /\ R.e = "open" /\ R.i = Len(opens) + 1
-        /\ opens' = Append(opens, [peer |-> R.peer, p |-> R.p, st |-> "wait", cause |-> FALSE])
+        /\ opens' = Append(opens, [peer |-> R.peer, p |-> R.p, st |-> "wait", cause |-> FALSE, pq |-> ~Connected(R.peer), must |-> ""])
         /\ UNCHANGED <<reg, q, conns, pd, osr, nosr, okst, fails, inbp>>
 Cancel == /\ R.e = "cancel" /\ Waiting(R.i) /\ opens' = [opens EXCEPT ![R.i].st = "cancelled"]
           /\ UNCHANGED <<reg, q, conns, pd, osr, nosr, okst, fails, inbp>>
@@ -76,9 +84,10 @@ BehQuiet == /\ R.e = "pollbeh" /\ R.res \in {"pending", "dialskip"}
             /\ UNCHANGED <<reg, q, conns, pd, opens, osr, nosr, okst, fails, inbp>>
 Est == /\ R.e = "est" /\ ~IsConn(R.c) /\ conns' = conns \cup {[c |-> R.c, peer |-> R.peer]}
        /\ IF R.dir = "out" THEN pd[R.peer] > 0 /\ pd' = [pd EXCEPT ![R.peer] = @ - 1] ELSE UNCHANGED pd
-       /\ UNCHANGED <<reg, q, opens, osr, nosr, okst, fails, inbp>>
+       /\ opens' = TakeOver(R.peer)
+       /\ UNCHANGED <<reg, q, osr, nosr, okst, fails, inbp>>
 DialFail == /\ R.e = "dialfail" /\ pd[R.peer] > 0 /\ pd' = [pd EXCEPT ![R.peer] = @ - 1]
-            /\ opens' = Blame(R.peer)
+            /\ opens' = IF R.k = "denied-late" THEN Blame(R.peer) ELSE DialBlame(R.peer)   \* denied-late: the unused handler had taken them over
             /\ UNCHANGED <<reg, q, conns, osr, nosr, okst, fails, inbp>>
 (* an inbound connection of the peer was denied by another behaviour after this one had built its handler: the requests
    the unused handler had taken over die with it *)
@@ -107,11 +116,12 @@ OutFail == /\ R.e = "outfail" /\ IsConn(R.c) /\ osr[R.c] # <<>> /\ Head(osr[R.c]
 Claim(x) == \E j \in 1..Len(fails) : fails[j] = x /\ fails' = Drop(fails, j)
 Res == /\ R.e = "res" /\ R.i \in 1..Len(opens) /\ Waiting(R.i)
        /\ LET o == opens[R.i] IN
-          \/ /\ R.k = "ok" /\ [ser |-> R.ser, peer |-> o.peer, p |-> o.p] \in okst            \* the stream negotiated for it, handed out once
+          \/ /\ o.must # "" /\ R.k = "io" /\ R.iok = o.must /\ UNCHANGED <<okst, fails>>        \* the propagated dial error
+          \/ /\ o.must = "" /\ R.k = "ok" /\ [ser |-> R.ser, peer |-> o.peer, p |-> o.p] \in okst            \* the stream negotiated for it, handed out once
              /\ okst' = okst \ {[ser |-> R.ser, peer |-> o.peer, p |-> o.p]} /\ UNCHANGED fails
-          \/ /\ R.k = "unsupported" /\ R.proto = o.p /\ Claim([peer |-> o.peer, p |-> o.p, k |-> "neg"]) /\ UNCHANGED okst
-          \/ /\ R.k = "io" /\ (Claim([peer |-> o.peer, p |-> o.p, k |-> "io"]) \/ Claim([peer |-> o.peer, p |-> o.p, k |-> "timeout"])) /\ UNCHANGED okst
-          \/ /\ R.k = "io" /\ o.cause /\ UNCHANGED <<okst, fails>>
+          \/ /\ o.must = "" /\ R.k = "unsupported" /\ R.proto = o.p /\ Claim([peer |-> o.peer, p |-> o.p, k |-> "neg"]) /\ UNCHANGED okst
+          \/ /\ o.must = "" /\ R.k = "io" /\ (Claim([peer |-> o.peer, p |-> o.p, k |-> "io"]) \/ Claim([peer |-> o.peer, p |-> o.p, k |-> "timeout"])) /\ UNCHANGED okst
+          \/ /\ o.must = "" /\ R.k = "io" /\ o.cause /\ UNCHANGED <<okst, fails>>
        /\ opens' = [opens EXCEPT ![R.i].st = "done"]
        /\ UNCHANGED <<reg, q, conns, pd, osr, nosr, inbp>>
 (* T6 "resolves": after the drain nothing can move without the environment; whoever still waits must be waiting FOR the
